@@ -92,15 +92,15 @@ struct Tier {
 fn tier_of(prop: &str, tier: &str, scale: f64) -> Tier {
     let base: u64 = match (prop, tier) {
         ("C06", "quick") => 150,
-        ("C06", _) => 6_000,
+        ("C06", _) => 12_000,
         ("C07", "quick") => 80_000,
-        ("C07", _) => 2_500_000,
+        ("C07", _) => 6_000_000,
         ("C08", "quick") => 80_000,
-        ("C08", _) => 2_500_000,
+        ("C08", _) => 6_000_000,
         ("C09", "quick") => 40_000,
-        ("C09", _) => 1_250_000,
+        ("C09", _) => 3_000_000,
         ("C10", "quick") => 50_000,
-        ("C10", _) => 1_500_000,
+        ("C10", _) => 4_000_000,
         _ => 1000,
     };
     Tier { per_type: ((base as f64 * scale) as u64).max(1) }
@@ -410,6 +410,10 @@ pub fn run_check(prop: &str, tier: &str, seed: u64, workers: usize, backend: &st
         for e in &agg.harness_errors {
             eprintln!("harness error: {}", e);
         }
+        return 2;
+    }
+    if agg.nontrivial == 0 && found.is_empty() {
+        eprintln!("harness error: not a single non-trivial run (no message could be built / no byte was delivered)");
         return 2;
     }
     let mut violations = 0;
